@@ -184,47 +184,68 @@ fn children(out: &mut Out, seeds: &[u64]) {
     }
 }
 
+fn log_setup(state: &mut mahf::State<RealProblem>, own_rng: bool) -> ExecResult<()> {
+    if own_rng {
+        // a generator supplied by the user's setup: it must be the one the run uses
+        state.insert(Random::with_rng::<super::templates::CountingRng>(777));
+    }
+    state.insert_evaluator(Sequential::<RealProblem>::new());
+    state.configure_log(|c| {
+        c.with_common(mahf::conditions::EveryN::iterations(3))
+            .with(mahf::conditions::EveryN::iterations(1), mahf::lens::common::BestObjectiveValueLens::entry());
+        Ok(())
+    })
+}
+
+fn cbor_digest(file: &std::path::Path) -> String {
+    std::fs::File::open(file)
+        .ok()
+        .and_then(|f| ciborium::de::from_reader::<ciborium::value::Value, _>(f).ok())
+        .map(|v| canonical(&v))
+        .unwrap_or("undecodable".to_string())
+}
+
 fn experiments(out: &mut Out, dir: &std::path::Path, runs: u64, pools: &[usize]) {
     let problem = RealProblem::new(1, 3, -4.0, 12.0);
     let config: Configuration<RealProblem> = rs::real_rs(LessThanN::iterations(12)).unwrap();
-    for &k in pools {
-        let folder = dir.join(format!("exp-{}-{k}", std::process::id()));
-        let pool = rayon::ThreadPoolBuilder::new().num_threads(k).build().unwrap();
-        let problems = [problem.clone()];
-        let res: Result<ExecResult<()>, String> = caught(|| {
-            pool.install(|| {
-                par_experiment(
-                    &config,
-                    |state| {
-                        state.insert_evaluator(Sequential::<RealProblem>::new());
-                        state.configure_log(|c| {
-                            c.with_common(mahf::conditions::EveryN::iterations(3))
-                                .with(mahf::conditions::EveryN::iterations(1), mahf::lens::common::BestObjectiveValueLens::entry());
-                            Ok(())
-                        })
-                    },
-                    &problems,
-                    runs,
-                    &folder,
-                    true,
-                )
-            })
-        });
-        let ok = matches!(res, Ok(Ok(())));
+    let mut id = 800000u64;
+    for own_rng in [false, true] {
+        let key = if own_rng { "real_rs-own-generator" } else { "real_rs" };
+        // reference: the same run made directly with optimize_with (run number as seed, or the user's generator)
         for run in 0..runs {
-            let file = folder.join(format!("RealProblem_{run}.cbor"));
-            let digest = std::fs::read(&file).map(|b| fnv(&format!("{b:?}"))).unwrap_or("missing".to_string());
-            // the decoded content is what matters; key order inside a step map is not stable across runs, so sort
-            let decoded = std::fs::File::open(&file)
-                .ok()
-                .and_then(|f| ciborium::de::from_reader::<ciborium::value::Value, _>(f).ok())
-                .map(|v| canonical(&v))
-                .unwrap_or("undecodable".to_string());
-            let _ = digest;
-            out.emit(&json!({"run": 800000 + k as u64 * 100 + run, "ev": "exp", "key": "real_rs", "pool": k, "rn": run, "ok": (ok && decoded != "undecodable") as i64,
+            let file = dir.join(format!("exp-ref-{}-{run}.cbor", std::process::id()));
+            let res = config.optimize_with(&problem, |state| {
+                if !own_rng {
+                    state.insert(Random::new(run));
+                }
+                log_setup(state, own_rng)
+            });
+            let ok = match res {
+                Ok(state) => state.log().to_cbor(&file).is_ok(),
+                Err(_) => false,
+            };
+            let decoded = cbor_digest(&file);
+            let _ = std::fs::remove_file(&file);
+            id += 1;
+            out.emit(&json!({"run": id, "ev": "exp", "key": key, "pool": 0, "rn": run, "ok": (ok && decoded != "undecodable") as i64,
                              "digest": fnv(&decoded)}));
         }
-        let _ = std::fs::remove_dir_all(&folder);
+        for &k in pools {
+            let folder = dir.join(format!("exp-{}-{k}-{}", std::process::id(), own_rng as u8));
+            let pool = rayon::ThreadPoolBuilder::new().num_threads(k).build().unwrap();
+            let problems = [problem.clone()];
+            let res: Result<ExecResult<()>, String> =
+                caught(|| pool.install(|| par_experiment(&config, |state| log_setup(state, own_rng), &problems, runs, &folder, true)));
+            let ok = matches!(res, Ok(Ok(())));
+            for run in 0..runs {
+                // the decoded content is what matters; key order inside a step map is not stable, so it is sorted
+                let decoded = cbor_digest(&folder.join(format!("RealProblem_{run}.cbor")));
+                id += 1;
+                out.emit(&json!({"run": id, "ev": "exp", "key": key, "pool": k, "rn": run, "ok": (ok && decoded != "undecodable") as i64,
+                                 "digest": fnv(&decoded)}));
+            }
+            let _ = std::fs::remove_dir_all(&folder);
+        }
     }
 }
 
